@@ -214,9 +214,41 @@ def monotone_frames_rule(F, G, rep):
     rep.ob("monotone.len", lv.get("k") == "MethodCall" and lv["method"] == "len" and not lv.get("args") and tir.place(lv["recv"]) == "self.id", "frame::mutable::Frame::len", "len", "the frame count must be the length of the id column")
 
 
+def dispatch_refusals_rule(F, rep):
+    """read() stops handing events to parse_event at the first Game End and tolerates what follows; a caller of the incremental
+    API keeps calling parse_event until the declared length is reached. The two agree only if parse_event's dispatch refuses
+    no event history read() tolerates: the arms that return an error outright are those of the two events the reader itself
+    consumes before the dispatch exists (Payloads, Game Start), unguarded; no other arm, and no guarded arm, is a refusal."""
+    import errdrop
+    import events
+    b, m, arms = events.find_dispatch(F)
+    if m is None:
+        rep.ob("dispatch.refusals", False, events.PARSE_EVENT, "dispatch", "event dispatch not found")
+        return
+    n = 0
+    for a in m["arms"]:
+        names = []
+        for p in (a["pat"]["pats"] if a["pat"].get("k") == "Or" else [a["pat"]]):
+            q = p
+            while q.get("k") == "Ref":
+                q = q["pat"]
+            if q.get("k") == "TupleStruct" and len(q.get("pats", [])) == 1:
+                q = q["pats"][0]
+            nm = (q.get("path") or (q.get("e") or {}).get("path") or "_").split("::")[-1]
+            names.append(nm)
+        n += 1
+        refuses = errdrop.error_valued(a["body"])
+        ok = not refuses or (set(names) <= {"Payloads", "GameStart"} and a.get("guard") is None)
+        rep.ob("dispatch.refusals", ok, events.PARSE_EVENT, "+".join(names) + (".guarded" if a.get("guard") is not None else ""),
+               "the %s arm of parse_event%s refuses the event outright: read() never hands parse_event what follows the first Game End, so the incremental API would fail on a file the one-shot reader accepts" % (
+                   "/".join(names), " (guarded)" if a.get("guard") is not None else ""), tir.sp(a["body"]))
+    rep.floor("dispatch arms inspected for outright refusals", n, 8)
+
+
 def run(F, rep, tier):
     G = reach.Graph(F)
     same_code_rule(F, G, rep)
+    dispatch_refusals_rule(F, rep)
     fragmentation_rule(F, G, rep)
     # every parser reads from the caller's stream itself: a buffering adapter would consume more of the stream than bytes_read accounts for
     import streamid
